@@ -307,11 +307,15 @@ fn exec_plans(thorough: bool, wi: usize, plans: Vec<Plan>, dl: &Deadline, stop: 
         if !out.status.success() {
             // the child died: the plan after the last reported one is the culprit
             let next = chunk.get(local.len()).cloned().unwrap_or(Plan { answers: vec![], fail_from: None });
+            let by_signal = {
+                use std::os::unix::process::ExitStatusExt;
+                out.status.signal().is_some()
+            };
             local.push(PlanResult {
                 plan: next,
                 calls: Vec::new(),
-                problems: vec![format!("C09: the process executing this fault plan died abnormally ({:?})", out.status)],
-                machinery: None,
+                problems: if by_signal { vec![format!("C09: the process executing this fault plan was killed ({:?})", out.status)] } else { Vec::new() },
+                machinery: if by_signal { None } else { Some(format!("fault-plan worker exited with {:?}", out.status)) },
                 images: 0,
                 recoveries: 0,
                 outs_hash: 0,
